@@ -15,6 +15,7 @@ def run(ctx):
     P = 'C09'
     stream.r_err(ctx, P)
     stream.r_pair(ctx, P)
+    stream.wrapper_finishers(ctx, P)
     stream.error_states(ctx, P)
     stream.tee_writer(ctx, P)
     stream.fill_loops(ctx, P)
